@@ -479,6 +479,60 @@ def keplernum_case(kind, K):
                      "stop, and does not raise")
 
 
+def numiter_args_case(stop_kind):
+    """NumericalPropagator.iter: what the range arguments mean before they reach _iter -- a timedelta `stop` is counted from
+    `start` (not from the epoch of the orbit), start=None means the epoch, the step is turned round for a backward range"""
+    ins = c03.EOP_IN + [("d", "int"), ("s", "real"), ("off", "real"), ("span", "real"), ("step", "pos"), ("h", "pos")]
+
+    def pre(v):
+        return c03.eop_pre(v) + [v["d"] >= 41317, v["d"] <= 58000, v["s"] >= 0, v["s"] < 86400,
+                                 v["off"] > -86400, v["off"] < 86400, v["span"] > -86400, v["span"] < 86400]
+
+    def run(env, v):
+        m = c03.datemod(env)
+        c03.install_eop(env, m, v)
+        try:
+            if env.symbolic:
+                base = env.mod("beyond.propagators.base")
+                base.timedelta = STD
+                td = lambda x: STD.of(x)
+            else:
+                base = importlib.import_module("beyond.propagators.base")
+                td = lambda x: _td(seconds=float(x))
+            epoch = c03.mk_date(env, m, v["d"], v["s"], "UTC") if env.symbolic else c03.mk_date(env, m, 58000, 0.0, "UTC")
+            start = epoch + td(v["off"])
+            got = []
+
+            class P(base.NumericalPropagator):
+                step = td(v["h"])
+                orbit = Rec(epoch)
+
+                def _iter(self, **kw):
+                    got.append(kw)
+                    return iter(())
+            stop = td(v["span"]) if stop_kind == "timedelta" else start + td(v["span"])
+            list(P().iter(start=start, stop=stop, step=td(v["step"])))
+            list(P().iter(start=None, stop=stop))
+            a, b = got
+            sec = lambda x: tsec(env, x, epoch)
+            stp = lambda x: (x.total_seconds().r if env.symbolic else x.total_seconds())
+            b_stop = v["span"] if stop_kind == "timedelta" else v["off"] + v["span"]
+            return {"start": sec(a["start"]), "stop": sec(a["stop"]), "step": stp(a["step"]),
+                    "default_stop": sec(b["stop"]), "default_step": stp(b["step"]), "_bstop": b_stop}
+        finally:
+            if not env.symbolic:
+                c03.restore_eop()
+
+    def ref(env, v, out):
+        back = v["span"] < 0
+        bstop = out["_bstop"]
+        return {"start": v["off"], "stop": v["off"] + v["span"], "step": -v["step"] if back else v["step"],
+                "default_stop": bstop, "default_step": (-v["h"] if bstop < 0 else v["h"]), "_bstop": bstop}
+    return Case(f"numiter_args/{stop_kind}", ins, run, ref, pre=pre, timeout=60, tol=1e-9, abs_tol=3e-6,
+                desc=f"NumericalPropagator.iter(start, stop as {stop_kind}, step): the range handed to the integrator is start .. "
+                     "start + stop (a timedelta stop counts from start), step sign fixed up for backward ranges; start=None is the epoch")
+
+
 def all_cases(tier):
     K = bounds(tier)["max_points"]
     cs = []
@@ -487,7 +541,7 @@ def all_cases(tier):
             cs.append(analytical_case(sign, sk, K))
     cs += [dates_case(), ephem_case("step", K), ephem_case("nostep", K), ephem_case("dates", K), ephem_strict_case(), ephem_bwd_case(K),
            keplernum_case("fwd_long", bounds(tier)["keplernum_steps"]), keplernum_case("fwd_short", bounds(tier)["keplernum_steps"]),
-           keplernum_case("bwd", bounds(tier)["keplernum_steps"])]
+           keplernum_case("bwd", bounds(tier)["keplernum_steps"]), numiter_args_case("timedelta"), numiter_args_case("date")]
     return cs
 
 
